@@ -2,3 +2,46 @@
  * harness-style jobs (inputs are short, loops are unwound with unwinding assertions). */
 #include <stddef.h>
 size_t strnlen(const char *s, size_t n) { size_t i; for (i = 0; i < n; i++) if (!s[i]) break; return i; }
+/* snprintf as far as the library uses it ("%g", "%.15lg" with one floating argument): an arbitrary
+ * non-empty text of at most 24 characters, truncated to n-1 characters plus NUL; returns the full length */
+#include <stdarg.h>
+unsigned char nondet_u8(void);
+int snprintf(char *s, size_t n, const char *fmt, ...) {
+    int k = nondet_u8() % 24 + 1, i; (void) fmt;
+    for (i = 0; i < k && (size_t)(i + 1) < n; i++) { char c = (char)(nondet_u8() % 94 + 33); s[i] = c; }
+    if (n > 0) s[i] = 0;
+    return k;
+}
+int __builtin_isfinite(double x) { return x == x && (x - x) == 0.0; }
+int nondet_int(void);
+double frexp(double x, int *e) { int k = nondet_int(); __CPROVER_assume(k >= -1100 && k <= 1100); *e = k; return x; }
+/* strtoul family as far as the library uses it (bases 2, 8, 10, 16; optional sign; stops at the first
+ * character that is not a digit of the base; overflow wraps) */
+static int dig_(char c) { return (c >= '0' && c <= '9') ? c - '0' : (c >= 'a' && c <= 'f') ? c - 'a' + 10 : (c >= 'A' && c <= 'F') ? c - 'A' + 10 : 99; }
+unsigned long long strtoull(const char *s, char **end, int base) {
+    const char *p = s; int neg = 0; unsigned long long v = 0; int any = 0;
+    while (*p == ' ' || *p == '\t') p++;
+    if (*p == '+' || *p == '-') { neg = (*p == '-'); p++; }
+    while (dig_(*p) < base) { v = v * (unsigned long long) base + (unsigned long long) dig_(*p); p++; any = 1; }
+    if (end) *end = (char *)(any ? p : s);
+    return neg ? 0ull - v : v;
+}
+long long strtoll(const char *s, char **end, int base) { return (long long) strtoull(s, end, base); }
+unsigned long strtoul(const char *s, char **end, int base) { return (unsigned long) strtoull(s, end, base); }
+long strtol(const char *s, char **end, int base) { return (long) strtoull(s, end, base); }
+/* strtod/strtof: only the CONSUMED LENGTH is modelled (C syntax: optional sign, digits, optional
+ * fraction, optional exponent = e/E, optional sign, at least one digit - no white space inside);
+ * the value is left arbitrary, correct rounding is libc's business */
+double nondet_double(void);
+double strtod(const char *s, char **end) {
+    const char *p = s; int digits = 0;
+    while (*p == ' ' || *p == '\t') p++;
+    if (*p == '+' || *p == '-') p++;
+    while (*p >= '0' && *p <= '9') { p++; digits++; }
+    if (*p == '.') { p++; while (*p >= '0' && *p <= '9') { p++; digits++; } }
+    if (!digits) { if (end) *end = (char *) s; return 0.0; }
+    if (*p == 'e' || *p == 'E') { const char *q = p + 1; if (*q == '+' || *q == '-') q++; if (*q >= '0' && *q <= '9') { while (*q >= '0' && *q <= '9') q++; p = q; } }
+    if (end) *end = (char *) p;
+    return nondet_double();
+}
+float strtof(const char *s, char **end) { return (float) strtod(s, end); }
